@@ -24,6 +24,7 @@ func runC12(c *Ctx) {
 	c.rule("visited-flags-written", "the Visit callback returns without writing the field (or recording an error) only when the flag name is unknown or its value cannot be obtained: a flag that was given on the command line is never silently dropped", 2)
 	c.rule("default-from-template", "every flag registration's default (or the pointer wrapped by its helper) derives from transform.GetField(sf, tmpl) of the same iteration", 60)
 	c.rule("kind-table", "in each kind arm of the registration switch the reflect type converted to, the asserted Go type and the arm's kind agree", 30)
+	c.rule("helper-writes-through", "every pointer-backed flag helper the pflag source constructs (and whose pointer it keeps to read the value back) writes through that pointer in Set and never re-binds it", 5)
 	c.rule("narrowing-guard", "standard-library flags: the reflect conversion to the field's (possibly narrower) type is dominated by the overflow helper returning false; the helper routes every integer kind to OverflowInt, unsigned to OverflowUint, both float kinds to OverflowFloat and both complex kinds to OverflowComplex", 5)
 	c.rule("error-not-value", "when an overflow was recorded, Value returns it as a non-nil error and the reverse-translated value is not returned", 1)
 	c.rule("accumulate", "each helper Set returns the parse error; the first Set after the default replaces the value and clears the defaulted mark; later Sets append/merge", 6)
@@ -157,6 +158,7 @@ func runC12(c *Ctx) {
 		c.analysed(relName(f))
 		c12Accumulate(c, f, typ)
 	}
+	c12WritesThrough(c)
 }
 
 func c12FromGetField(v ssa.Value, getField *ssa.Function, d int) bool {
@@ -553,6 +555,82 @@ func c12Accumulate(c *Ctx, f *ssa.Function, typ string) {
 	c.check(okErr && okClear && okReplaceRet && okAcc, "accumulate", typ, f.Pos(),
 		"parse error returned; first Set replaces and clears `defaulted`; later Sets append/merge",
 		"helper Set breaks the accumulate discipline (error="+boolStr(okErr)+" clears-under-defaulted="+boolStr(okClear)+" replace-returns="+boolStr(okReplaceRet)+" accumulates="+boolStr(okAcc)+")")
+}
+
+// c12WritesThrough: the pflag source reads a helper-backed flag's value through
+// the pointer it handed to the helper's constructor (it stores that same pointer
+// in its flag-value table), so those helpers' Set must write through the
+// constructor pointer and never re-bind it; a helper that re-binds keeps its
+// accumulated value to itself and the source sees only the first occurrence.
+func c12WritesThrough(c *Ctx) {
+	w := c.W
+	reg := w.fn("sources/pflag", "Set.registerFlags")
+	if !c.need(reg != nil, "sources/pflag.Set.registerFlags") {
+		return
+	}
+	seen := map[string]bool{}
+	for _, i := range allInstrs(reg) {
+		call, ok := i.(*ssa.Call)
+		if !ok {
+			continue
+		}
+		ctor := staticCallee(call)
+		if ctor == nil || w.pkgRelOfFn(ctor) != "sources/flag/flaghelper" || !strings.HasPrefix(ctor.Name(), "New") || len(ctor.Params) != 1 {
+			continue
+		}
+		if _, isPtr := ctor.Params[0].Type().Underlying().(*types.Pointer); !isPtr {
+			continue
+		}
+		tn := namedTypeName(ctor.Signature.Results().At(0).Type())
+		if seen[tn] {
+			continue
+		}
+		seen[tn] = true
+		// the field the constructor stores its parameter in
+		var fld *types.Var
+		for _, ci := range allInstrs(ctor) {
+			if st, ok := ci.(*ssa.Store); ok && st.Val == ssa.Value(ctor.Params[0]) {
+				if fa, ok := st.Addr.(*ssa.FieldAddr); ok {
+					fld = fieldVar(fa.X.Type(), fa.Field)
+				}
+			}
+		}
+		short := tn[strings.LastIndex(tn, ".")+1:]
+		set := w.fn("sources/flag/flaghelper", short+".Set")
+		if fld == nil || set == nil {
+			c.undecided("helper-writes-through", tn, call.Pos(), "constructor %s does not store its pointer in a field / no Set method found", relName(ctor))
+			continue
+		}
+		c.analysed(relName(set))
+		rebinds, through := false, false
+		for _, si := range allInstrs(set) {
+			st, ok := si.(*ssa.Store)
+			if !ok {
+				continue
+			}
+			if fa, ok := st.Addr.(*ssa.FieldAddr); ok && sameField(fieldVar(fa.X.Type(), fa.Field), fld) {
+				rebinds = true
+			}
+			if _, ok := isFieldLoad(st.Addr, fld); ok {
+				through = true
+			}
+		}
+		// map helpers accumulate with MapUpdate on the loaded map
+		for _, si := range allInstrs(set) {
+			if mu, ok := si.(*ssa.MapUpdate); ok {
+				if ld, ok := mu.Map.(*ssa.UnOp); ok {
+					if _, ok := isFieldLoad(ld.X, fld); ok {
+						through = true
+					}
+				}
+			}
+		}
+		c.check(!rebinds && through, "helper-writes-through", short, set.Pos(), short+".Set stores through the pointer it was constructed with and never re-binds it (the pflag source reads the value through that pointer)",
+			short+".Set re-binds its pointer field (or never writes through it): the pflag source, which reads the flag's value through the pointer it passed to "+ctor.Name()+", only sees the first occurrence of a repeated flag")
+	}
+	if len(seen) == 0 {
+		c.bad("helper-writes-through", "pflag", reg.Pos(), "no pointer-backed flag helper is constructed in the pflag registration")
+	}
 }
 
 // parseOK: in the formula after the parse call, the parse error atom (if
